@@ -194,7 +194,14 @@ impl FixtureDatabase {
             debug!("Found test/conftest file: {:?}", path);
             match std::fs::read_to_string(path) {
                 Ok(content) => {
-                    self.analyze_file_fresh(path.clone(), &content);
+                    // One file must never abort the scan of the others
+                    let analysis = std::panic::catch_unwind(std::panic::AssertUnwindSafe(|| {
+                        self.analyze_file_fresh(path.clone(), &content);
+                    }));
+                    if analysis.is_err() {
+                        error!("Analysis of {:?} panicked; skipping this file", path);
+                        error_count.fetch_add(1, Ordering::Relaxed);
+                    }
                 }
                 Err(err) => {
                     if err.kind() == std::io::ErrorKind::PermissionDenied {
@@ -759,8 +766,9 @@ impl FixtureDatabase {
         // The format is `name-version`. Split on '-' and take the first segment.
         // Package names can contain hyphens, but the version always starts with a digit,
         // so find the first '-' followed by a digit.
-        let name = if let Some(idx) = name_version.char_indices().position(|(i, c)| {
-            c == '-' && name_version[i + 1..].starts_with(|c: char| c.is_ascii_digit())
+        // (byte index of the '-', not its position among the characters: names may be non-ASCII)
+        let name = if let Some((idx, _)) = name_version.char_indices().find(|(i, c)| {
+            *c == '-' && name_version[i + 1..].starts_with(|c: char| c.is_ascii_digit())
         }) {
             &name_version[..idx]
         } else {
